@@ -160,3 +160,65 @@ def _(current, token_store, start, backwards, ignore_if_already_claimed):
                         ite(k == old(start.g_pos) - 1, old(start.g_pos) - 1 - token_store.g_ca,
                         ite(k == old(start.g_pos) - 2, old(start.g_pos) - 2 - token_store.g_ca - token_store.g_cb,
                         ite(k < old(start.g_pos) - 2 - token_store.g_ca, k + 1, k + 2))))))))
+
+# ================================================================ the four public methods of SurroundingCommentsMixin
+# (_leading_comment / _trailing_comment are data fields: plain per-instance slots - assumption A-datafield)
+@contract('RawModel.first_token')
+def _(self):
+    modifies()
+    ensures(result is self.g_first and result != None)
+
+@contract('RawModel.last_token')
+def _(self):
+    modifies()
+    ensures(result is self.g_last and result != None)
+
+@contract('RawTreeModel.token_store')
+def _(self):
+    modifies()
+    ensures(result is self._token_store)
+
+@macro
+def Att(m):
+    return m != None and m._token_store != None and AbsInv(m._token_store) and In(m._token_store, m.g_first) and In(m._token_store, m.g_last)
+
+@contract('SurroundingCommentsMixin.claim_leading_comment')
+def _(self, ignore_if_already_claimed):
+    requires(Att(self))
+    modifies('TokenStore.g_view@self._token_store', 'TokenStore.g_vlen@self._token_store', 'RawTokenModel.g_store', 'RawTokenModel.g_pos', 'BlockComment._claimed', 'list[RawTokenModel]@fresh',
+             'TokenStore.g_ca@self._token_store', 'TokenStore.g_cb@self._token_store', 'SurroundingCommentsMixin._leading_comment@self')
+    raises('ValueError', 'TokenStore.g_view', 'TokenStore.g_vlen', 'RawTokenModel.g_store', 'RawTokenModel.g_pos', 'BlockComment._claimed', 'SurroundingCommentsMixin._leading_comment')
+    ensures(result is self._leading_comment and implies(old(self._leading_comment) != None, result is old(self._leading_comment)))
+    ensures(implies(old(self._leading_comment) != None or result is None, self._token_store.g_view == old(self._token_store.g_view) and self._token_store.g_vlen == old(self._token_store.g_vlen)
+                    and forall(lambda t: as_ref(t, 'BlockComment')._claimed == old(as_ref(t, 'BlockComment')._claimed))))
+    ensures(implies(old(self._leading_comment) is None and result != None, old(as_ref(result, 'BlockComment')._claimed) == False and as_ref(result, 'BlockComment')._claimed == True
+                    and forall(lambda t: implies(t != result, as_ref(t, 'BlockComment')._claimed == old(as_ref(t, 'BlockComment')._claimed)))
+                    and ShapeBwd(self._token_store, old(self._token_store.g_view), old(self.g_first.g_pos), self._token_store.g_ca, self._token_store.g_cb, result)))
+    ensures(self._token_store.g_vlen == old(self._token_store.g_vlen) and AbsInv(self._token_store))
+
+@contract('SurroundingCommentsMixin.claim_trailing_comment')
+def _(self, ignore_if_already_claimed):
+    requires(Att(self))
+    modifies('TokenStore.g_view@self._token_store', 'TokenStore.g_vlen@self._token_store', 'RawTokenModel.g_store', 'RawTokenModel.g_pos', 'BlockComment._claimed', 'list[RawTokenModel]@fresh',
+             'TokenStore.g_ca@self._token_store', 'TokenStore.g_cb@self._token_store', 'SurroundingCommentsMixin._trailing_comment@self')
+    raises('ValueError', 'TokenStore.g_view', 'TokenStore.g_vlen', 'RawTokenModel.g_store', 'RawTokenModel.g_pos', 'BlockComment._claimed', 'SurroundingCommentsMixin._trailing_comment')
+    ensures(result is self._trailing_comment and implies(old(self._trailing_comment) != None, result is old(self._trailing_comment)))
+    ensures(implies(old(self._trailing_comment) != None or result is None, self._token_store.g_view == old(self._token_store.g_view) and self._token_store.g_vlen == old(self._token_store.g_vlen)
+                    and forall(lambda t: as_ref(t, 'BlockComment')._claimed == old(as_ref(t, 'BlockComment')._claimed))))
+    ensures(implies(old(self._trailing_comment) is None and result != None, old(as_ref(result, 'BlockComment')._claimed) == False and as_ref(result, 'BlockComment')._claimed == True
+                    and forall(lambda t: implies(t != result, as_ref(t, 'BlockComment')._claimed == old(as_ref(t, 'BlockComment')._claimed)))
+                    and ShapeFwd(self._token_store, old(self._token_store.g_view), old(self.g_last.g_pos), self._token_store.g_ca, self._token_store.g_cb, result)))
+    ensures(self._token_store.g_vlen == old(self._token_store.g_vlen) and AbsInv(self._token_store))
+
+# releasing: only the owner's slot and that comment's flag change - no token moves
+@contract('SurroundingCommentsMixin.unclaim_leading_comment')
+def _(self):
+    requires(self != None)
+    modifies('BlockComment._claimed@self._leading_comment', 'SurroundingCommentsMixin._leading_comment@self')
+    ensures(result is old(self._leading_comment) and self._leading_comment is None and implies(result != None, as_ref(result, 'BlockComment')._claimed == False))
+
+@contract('SurroundingCommentsMixin.unclaim_trailing_comment')
+def _(self):
+    requires(self != None)
+    modifies('BlockComment._claimed@self._trailing_comment', 'SurroundingCommentsMixin._trailing_comment@self')
+    ensures(result is old(self._trailing_comment) and self._trailing_comment is None and implies(result != None, as_ref(result, 'BlockComment')._claimed == False))
